@@ -3,6 +3,7 @@ from __future__ import annotations
 
 import copy
 import pickle
+from typing import Annotated
 
 import fiddle as fdl
 
@@ -41,6 +42,14 @@ class Opaque:
     self.v = v
 
 
+def gq(x=None, y=None, *, z=None, q=12):
+  return sigs.Rec('gq', (x, y), (), (z, q), {})
+
+
+def fann(p: Annotated[int, T1] = 5, q: Annotated[int, T0] = 6, r=7):
+  return sigs.Rec('fann', (p, q, r), (), (), {})
+
+
 OPS = ['copy.copy', 'copy.deepcopy', 'pickle2', 'pickle5', 'copy_with', 'deepcopy_with', 'cast_partial', 'cast_config']
 DEEP = {1, 2, 3, 5}
 
@@ -50,7 +59,12 @@ def _make(w, t1x, t1y, t2x, t2y, lv, top_partial):
                           leaves=[(lv, lv + 1), (lv + 2, lv + 3), (lv + 4, lv + 5)], share=True)
   # a Buildable all of whose arguments are daglish leaves, some of them mutable (set, bytearray, user object)
   leafy = fdl.Config(fam.g4, x={1, 2}, y=bytearray(b'ab'), z=Opaque(5))
-  shared_list = [nodes[0], lv + 6, leafy]
+  # annotation tags, one of them removed and one replaced before the copy is taken
+  ann = fdl.Config(fann, r=lv)
+  fdl.remove_tag(ann, 'p', T1)
+  fdl.set_tags(ann, 'q', {T1})
+  leafy.x.add(0)
+  shared_list = [nodes[0], lv + 6, leafy, ann]
   ctor = fdl.Partial if top_partial else fdl.Config
   top = ctor(fam.fp, root3, lv + 7, shared_list, lv + 8, nodes[1], k=shared_list)
   fdl.add_tag(top, 'k', T0)
@@ -108,6 +122,14 @@ def _edit(e, c, deep, v):
       leafy.x.add(7)                  # mutable leaves of a leaf-only Buildable
       leafy.y.extend(b'!')
       leafy.z.v = v
+  elif e == 10:
+    # a callable with a different signature, on a node of the (deep) copy only; update_callable rejects Buildables
+    # holding positional arguments (NotImplementedError by design), so the top node is not a subject
+    if deep:
+      fdl.update_callable(c[0], gq)
+      for val in c[0].__arguments__.values():
+        if isinstance(val, fdl.Buildable):
+          fdl.update_callable(val, gq)
   elif e == 8:
     if deep:
       inner = c[0]
@@ -118,6 +140,16 @@ def _edit(e, c, deep, v):
           fdl.clear_tags(val, 'z')
 
 
+def _sigview(root):
+  """What each Buildable reports through its signature: parameters with defaults, unset ones included."""
+  from fvlib.canon import buildables
+  out = []
+  for b in buildables(root):
+    args = fdl.ordered_arguments(b, include_defaults=True, include_unset=True)
+    out.append((fdl.get_callable(b).__name__, tuple(str(k) for k in args), len(b[:])))
+  return out
+
+
 def _internal_ids(b):
   return {id(b.__arguments__), id(b.__argument_tags__), id(b.__argument_history__)} | \
       {id(s) for s in b.__argument_tags__.values()} | {id(l) for l in b.__argument_history__.values()}
@@ -125,7 +157,7 @@ def _internal_ids(b):
 
 def c07_copy(op: int, e0: int, e1: int, w: int, tp: bool, t1x: int, t1y: int, t2x: int, t2y: int, lv: int) -> bool:
   """
-  require: 0 <= op <= 7 and 0 <= e0 <= 9 and 0 <= e1 <= 9 and 0 <= w <= 5
+  require: 0 <= op <= 7 and 0 <= e0 <= 10 and 0 <= e1 <= 10 and 0 <= w <= 5
   require: -1 <= t1x <= 0 and -1 <= t1y <= 0 and -1 <= t2x <= 1 and -1 <= t2y <= 1
   """
   def conc(t, hi):
@@ -141,6 +173,7 @@ def c07_copy(op: int, e0: int, e1: int, w: int, tp: bool, t1x: int, t1y: int, t2
     lv = crosshair.realize(lv)
   top, nodes = _make(w, t1x, t1y, t2x, t2y, lv, tp)
   snap = canon(top)
+  sview = _sigview(top)
   sigs.reset_log()
   built_snap = canon(_call_if_partial(fdl.build(top)))
   c = _do_copy(op, top, lv)
@@ -175,7 +208,7 @@ def c07_copy(op: int, e0: int, e1: int, w: int, tp: bool, t1x: int, t1y: int, t2
     except (AttributeError, ValueError, IndexError):
       pass      # the edit is invalid on the copy's current state (e.g. deleting twice): irrelevant here
   note('c07', op, e0, e1, w, tp, t1x, t1y, t2x, t2y)
-  if canon(top) != snap:
+  if canon(top) != snap or _sigview(top) != sview:
     return False
   sigs.reset_log()
   if canon(_call_if_partial(fdl.build(top))) != built_snap:
@@ -211,21 +244,22 @@ def obligations(tier, seed):
   cubes = []
   ws = [1, 3] if tier == 'quick' else [0, 1, 2, 3, 4, 5]
   for op in range(8):
-    for e0 in range(10):
-      for e1 in range(10):
-        if tier == 'quick' and (e0 * 10 + e1 + op) % 6:
+    for e0 in range(11):
+      for e1 in range(11):
+        if tier == 'quick' and (e0 * 11 + e1 + op) % 6:
           continue
         if op not in DEEP and (e0 in (6, 8, 9) and e1 in (6, 8, 9)):
           continue
         for w in ws:
           if tier == 'quick' and (w + e0 + op) % 2:
             continue
-          cubes.append(Cube(f'o{op}_e{e0}{e1}_w{w}', [], dict(op=op, e0=e0, e1=e1, w=w, tp=bool((op + e0) % 2)),
+          cubes.append(Cube(f'o{op}_e{e0}_{e1}_w{w}', [], dict(op=op, e0=e0, e1=e1, w=w, tp=bool((op + e0) % 2)),
                             est=100 if op in (2, 3) else 36))
   smoke = dict(op=1, e0=6, e1=2, w=1, tp=False, t1x=0, t1y=-1, t2x=1, t2y=0, lv=1)
   t = 300 if tier == 'quick' else 900
   return [
       Obligation('c07_copy', c07_copy, cubes, timeout=t, path_timeout=40, smoke=smoke,
-                 extra_smokes=[dict(smoke, op=o, e0=(o * 2) % 10, e1=(o + 5) % 10, tp=bool(o % 2)) for o in range(8)]),
+                 extra_smokes=[dict(smoke, op=o, e0=(o * 2) % 11, e1=(o + 5) % 11, tp=bool(o % 2)) for o in range(8)] +
+                 [dict(smoke, op=o, e0=10, e1=4) for o in (0, 1, 2, 6)]),
       Obligation('c07_loud', c07_loud, [Cube(f'o{o}', [], dict(op=o)) for o in (2, 3)], timeout=60, smoke=dict(op=2)),
   ]
